@@ -276,18 +276,24 @@ FuIssues(r, k) ==
 
 TCrash ==
   /\ IsEvent("crash")
-  /\ LET r == Rec[l] IN
+  /\ LET r == Rec[l]
+         tailed == "tail" \in DOMAIN r            \* C17: a hostile log tail was added to the image
+         pOpen == IF tailed THEN "C17" ELSE "C02"
+         pAck == IF tailed THEN "C17" ELSE "C01"
+         \* damaging the last byte of the log may take the last whole transaction with it
+         need == IF tailed /\ r.tail = "bitflip" THEN Max({1, preLen - 1}) ELSE preLen
+     IN
      IF r.open # "ok"
-     THEN Emit(Finding("C02", "open-failed", {}, r.open))
+     THEN Emit(Finding(pOpen, "open-failed", {}, r.open))
      ELSE LET K == Matching(r.d) IN
           IF K = {}
-          THEN Emit(Finding("C02", "not-a-prefix", Diff(hist[Len(hist)], r.d), ""))
+          THEN Emit(Finding(pOpen, "not-a-prefix", Diff(hist[Len(hist)], r.d), ""))
           ELSE LET Kgood == {k \in K : FuIssues(r, k) = {}}
                    k == IF Kgood # {} THEN Max(Kgood) ELSE Max(K)
                IN
-               /\ IF k >= preLen THEN TRUE
-                  ELSE Emit(Finding("C01", "lost-acked", Diff(hist[preLen], r.d), ""))
-               /\ \A i \in FuIssues(r, k) : Emit(Finding(i[1], i[2], i[3], i[4]))
+               /\ IF k >= need THEN TRUE
+                  ELSE Emit(Finding(pAck, "lost-acked", Diff(hist[preLen], r.d), ""))
+               /\ \A i \in FuIssues(r, k) : Emit(Finding(IF tailed THEN "C17" ELSE i[1], i[2], i[3], i[4]))
   /\ UNCHANGED <<g, alts, hist, preLen, lastOp, faulted, gh>>
 
 Next ==
